@@ -897,9 +897,14 @@ class ValueNode(SyntaxNodeBase):
             value = self.value.value
         else:
             value = self._print_value
-        if self._type == int or self._can_float_to_int_happen():
+        if self._type == int:
             temp = "{value:0={sign}{zero_padding}d}".format(
                 value=int(value), **self._formatter
+            )
+        elif self._can_float_to_int_happen():
+            # the nearest integer (the one the check above compared with), not the truncated value
+            temp = "{value:0={sign}{zero_padding}d}".format(
+                value=round(value), **self._formatter
             )
         elif self._type == float:
             # default to python general if new value
